@@ -421,13 +421,25 @@ func (s *Service) serviceRequestWithTarget(w http.ResponseWriter, r *http.Reques
 		return
 	}
 
-	if s.handlePausedAndStoppedRequests(w, r) {
-		return
-	}
+	// The service may be paused or stopped between the moment a request gets
+	// past the pause gate and the moment it has claimed a target. Such a
+	// request must neither be refused by the targets that are being drained
+	// nor reach them once they have been drained, so it goes back to the gate.
+	for {
+		if s.handlePausedAndStoppedRequests(w, r) {
+			return
+		}
 
-	verifPoint("service.gate.passed", r, s.name)
-	lb := s.loadBalancerForRequest(r)
-	lb.ServeHTTP(w, r)
+		verifPoint("service.gate.passed", r, s.name)
+		lb := s.loadBalancerForRequest(r)
+		if lb.serve(w, r, s.isRunning) {
+			return
+		}
+	}
+}
+
+func (s *Service) isRunning() bool {
+	return s.pauseController.GetState() == PauseStateRunning
 }
 
 func (s *Service) shouldRedirectToHTTPS(r *http.Request) bool {
